@@ -114,11 +114,11 @@ func (g *Gen) cexVars() (vars []cexVar, arrays []string, bounds string, ok bool)
 			case u.Info()&types.IsString != 0:
 				arr := "(s-arr " + n + ")"
 				arrays = append(arrays, arr)
-				terms := []string{"(s-len " + n + ")"}
+				terms := []string{"(- (s-hi " + n + ") (s-lo " + n + "))"}
 				for i := 0; i < cexMaxLen; i++ {
-					terms = append(terms, fmt.Sprintf("(select %s (+ (s-off %s) %d))", arr, n, i))
+					terms = append(terms, fmt.Sprintf("(select %s (+ (s-lo %s) %d))", arr, n, i))
 				}
-				bnd = append(bnd, fmt.Sprintf("(assert (and (<= (s-len %s) %d) (= (s-off %s) 0)))", n, cexMaxLen, n))
+				bnd = append(bnd, fmt.Sprintf("(assert (and (<= (s-hi %s) %d) (= (s-lo %s) 0)))", n, cexMaxLen, n))
 				vars = append(vars, cexVar{p.Name(), p.Type(), terms, func(vals []*sx) (string, bool) {
 					b, ok := bytesOf(vals)
 					return strconv.Quote(string(b)), ok
@@ -534,4 +534,46 @@ func runBounded(repo, replayRoot, spec, tier, tmp string) []BoundedResult {
 		res = append(res, br)
 	}
 	return res
+}
+
+// replayProbe runs verifProbe_<fn> (a directed search over a small input dictionary kept in
+// the package's oracle file) on the real code; used when no model-based input is available.
+func replayProbe(repo, replayRoot string, fn *ssa.Function, pkgDir, tmp string) ReplayResult {
+	oracle := filepath.Join(replayRoot, pkgDir, "oracle_test.go")
+	name := strings.NewReplacer("(", "", ")", "", "*", "", ".", "_", "$", "_").Replace(fnShort(fn))
+	src, err := os.ReadFile(oracle)
+	if err != nil || !bytes.Contains(src, []byte("func verifProbe_"+name+"(")) {
+		return ReplayResult{What: "no probe for " + name}
+	}
+	test := fmt.Sprintf("package %s\n\nimport (\n\t\"fmt\"\n\t\"testing\"\n)\n\nfunc TestVerifReplay(t *testing.T) {\n\tif msg := verifProbe_%s(); msg != \"\" {\n\t\tfmt.Printf(\"VERIF-REPLAY: contract violated: %%s\\n\", msg)\n\t\treturn\n\t}\n\tfmt.Println(\"VERIF-REPLAY: ok\")\n}\n", fn.Pkg.Pkg.Name(), name)
+	testFile := filepath.Join(tmp, "probe_test.go")
+	os.WriteFile(testFile, []byte(test), 0o644)
+	ov := map[string]map[string]string{"Replace": {filepath.Join(repo, pkgDir, "zz_verif_replay_test.go"): testFile}}
+	if helpers, _ := filepath.Glob(filepath.Join(replayRoot, pkgDir, "*_test.go")); helpers != nil {
+		for _, h := range helpers {
+			if filepath.Base(h) != "bounded_test.go" {
+				ov["Replace"][filepath.Join(repo, pkgDir, "zz_verif_"+filepath.Base(h))] = h
+			}
+		}
+	}
+	ovb, _ := json.Marshal(ov)
+	ovFile := filepath.Join(tmp, "overlay_probe.json")
+	os.WriteFile(ovFile, ovb, 0o644)
+	ctx, cancel := context.WithTimeout(context.Background(), 120*time.Second)
+	defer cancel()
+	cmd := exec.CommandContext(ctx, "go", "test", "-overlay", ovFile, "-vet=off", "-v", "-count=1", "-timeout", "60s", "-run", "^TestVerifReplay$", "./"+pkgDir)
+	cmd.Dir = repo
+	cmd.Env = append(os.Environ(), "GOFLAGS=-mod=mod", "GOPROXY=off", "GOSUMDB=off", "GOTOOLCHAIN=local")
+	cmd.WaitDelay = 5 * time.Second
+	out, _ := cmd.CombinedOutput()
+	rr := ReplayResult{Ran: true, Test: test, Output: trunc(string(out), 3000)}
+	for _, l := range strings.Split(string(out), "\n") {
+		if strings.HasPrefix(l, "VERIF-REPLAY: ") {
+			rr.What = "probe: " + strings.TrimPrefix(l, "VERIF-REPLAY: ")
+			rr.Confirmed = strings.Contains(l, "contract violated:")
+			return rr
+		}
+	}
+	rr.What = "probe produced no verdict line"
+	return rr
 }
